@@ -974,7 +974,10 @@ func (r *EngineRunner) Exec(f []string) (res string) {
 			return "err " + firstErr + r.takeEvents(false)
 		}
 		return "ok" + r.takeEvents(false)
-	case "bputfail": // E bputfail <key> <val>: a Batch.Put during which the operating system refuses the first write to a data file
+	case "bputfail", "bputsyncfail": // E bputsyncfail <key> <val>: like bputfail, but what the operating system refuses is the first fsync
+		// that follows a write of this call (the Sync of the rotation after a successful overflow flush; batches without the Sync
+		// option only): the pieces are in the file and in the index, the rotation did not happen, the call reports the error.
+		// E bputfail <key> <val>: a Batch.Put during which the operating system refuses the first write to a data file
 		// (the write of an overflow flush; standard I/O only - otherwise, and when the call writes nothing, an ordinary Put).
 		// The call reports the error; what was staged before stays staged and readable through the batch, and Commit applies it.
 		{
@@ -984,8 +987,18 @@ func (r *EngineRunner) Exec(f []string) (res string) {
 			victim, saved := -1, -1
 			var ro *os.File
 			if r.opts.FileIOType == fio.StandardFIO {
+				wantKind := "write"
+				wrote := false
+				if f[1] == "bputsyncfail" {
+					wantKind = "sync"
+				}
 				fio.VerifEvent = func(kind, path string, data []byte, n int64) {
-					if kind != "write" || victim >= 0 || !strings.HasSuffix(path, string(datafile.DataFileSuffix)) {
+					if kind == "write" && strings.HasSuffix(path, string(datafile.DataFileSuffix)) {
+						if wantKind == "sync" {
+							wrote = true
+						}
+					}
+					if kind != wantKind || victim >= 0 || !strings.HasSuffix(path, string(datafile.DataFileSuffix)) || (wantKind == "sync" && !wrote) {
 						// everything but the refused write happens and is seen by the oracles (the Sync and the new file of a rotation)
 						if h1 != nil {
 							h1(kind, path, data, n)
